@@ -188,6 +188,7 @@ struct Node {
     std::map<CoinKey, Funded> coins;
     bool funded{false};
     bool dirty{false};                         // the tip could not be brought back to the base chain
+    int rows{0};                               // rows judged on this node (every row leaves a block-index entry behind)
     uint32_t counter{0};
 };
 
@@ -403,7 +404,9 @@ int BlockMain(const std::string& path)
         for (auto& [h, idx] : by_h) {
             try { ExtendTo(n, h - 1, need); } catch (const std::exception& e) { std::cerr << "cannot build the base chain: " << e.what() << "\n"; return 2; }
             for (size_t i : idx) {
-                if (n.dirty) {
+                // the block index grows with every row (rejected and invalidated blocks stay in it) and several per-block passes are linear
+                // in its size: start over with a fresh node every few hundred rows
+                if (n.dirty || ++n.rows > 400) {
                     // a fresh node with the same (deterministic) base chain and coins
                     const uint32_t counter = n.counter;
                     n = Node{}; n.sim = MakeSim(o); n.counter = counter;
